@@ -236,6 +236,12 @@ def main():
     except Exception as e:
         broken.append(f"implementation does not import: {type(e).__name__}: {e}")
     mod = importlib.import_module(f"props.{prop_id}")
+    if prop_id in ("C07", "C08", "C09", "C10", "C12", "C19"):
+        import iso
+        problem = iso.self_test(os.path.join(VERIF, "corpus", "iso"))
+        if problem:      # the comparator itself is broken: infrastructure, not a verdict
+            print("infrastructure error: " + problem, file=sys.stderr)
+            sys.exit(2)
     ctx = Ctx(prop_id, tier, seed)
     ctx.constants = constants
     diffs = []
